@@ -224,7 +224,7 @@ def _mk(triples, top, tag):
     norm = [(s, _colon(r), t) for s, r, t in triples]
     marks = {}
     for k, t in enumerate(norm):
-        if k % 2 == 0 or tag == 'B':
+        if (k % 2 == 0) if tag == 'A' else (k % 3 != 1):
             marks.setdefault(t, [f'Push({tag}{k})'])
     epi = {t: [Push(m[5:-1]) for m in v] for t, v in marks.items()}
     g = Graph(triples, top=top, epidata=epi, metadata={'id': tag})
